@@ -212,6 +212,7 @@ fn layouts() -> Vec<(&'static str, Vec<SimIntf>)> {
         ("v4", lay_v4()),
         ("dual", lay_dual()),
         ("two-subnets", lay_two_dual()),
+        ("dual-multicast-loop", lay_dual()),
     ]
 }
 
@@ -239,6 +240,7 @@ fn run_state(layout: usize, ops: &[Op], probing_extra: bool, pairs: bool, rename
     let (ipstr, ipv) = ips_for(&intfs);
     let mut w = World::one(intfs.clone());
     w.trace = trace;
+    w.loopback = w.loopback || layout == 3;
     w.ds[0].h.set_ip_check_interval(3600).unwrap();
     w.poke(0);
     let mut refs: BTreeMap<String, RefSvc> = BTreeMap::new();
@@ -517,10 +519,10 @@ pub fn check(tier: &str) -> i32 {
         nseq += b;
         b *= OPS.len() as u64;
     }
-    let dims = [nseq, 3, 2, 4];
+    let dims = [nseq, 4, 2, 4];
     let part = FnPart {
         name: "states-x-queries".into(),
-        rule: format!("every register / re-register / unregister sequence of depth <= {depth} over two services x 3 interface layouts x (all announced | a third service still probing) x (no conflict | the first registration's instance name, host name or both claimed by a scripted peer during probing, so the service is renamed); in each state every single question (16 names x 7 types) from port 5353 and 40000 on every interface and IP family, and every ordered pair of questions (quick tier: pairs in the states without a rename only); after a rename both the old and the new names are asked; non-trivial = at least one service registered"),
+        rule: format!("every register / re-register / unregister sequence of depth <= {depth} over two services x 4 interface layouts (the fourth: dual-stack with the daemon hearing its own multicasts, as with the crate's default IP_MULTICAST_LOOP) x (all announced | a third service still probing) x (no conflict | the first registration's instance name, host name or both claimed by a scripted peer during probing, so the service is renamed); in each state every single question (16 names x 7 types) from port 5353 and 40000 on every interface and IP family, and every ordered pair of questions (quick tier: pairs in the states without a rename only); after a rename both the old and the new names are asked; non-trivial = at least one service registered"),
         n: product(&dims),
         describe: Box::new(move |i| { let x = unrank(i, &dims); format!("layout {} ops {:?} probing_extra {} rename {}", layouts()[x[1] as usize].0, seq_of(x[0], depth), x[2] == 1, x[3]) }),
         run: Box::new(move |i, tr| { let x = unrank(i, &dims); run_state(x[1] as usize, &seq_of(x[0], depth), x[2] == 1, thorough || x[3] == 0, x[3], tr) }),
